@@ -1233,6 +1233,11 @@ func (cl *Cloud) assign(ctx context.Context, kind string, o *aliyunClient.Networ
 	if !v6 && v != nil && v.Free < int64(k) {
 		return nil, cl.end(c, MkErr(apiErr.InvalidVSwitchIDIPNotEnough))
 	}
+	if v6 && v != nil && v.Free <= 0 && k > 0 {
+		// an exhausted vSwitch refuses IPv6 addresses as well (the controller handles this
+		// code in its IPv6 branch)
+		return nil, cl.end(c, MkErr(apiErr.InvalidVSwitchIDIPNotEnough))
+	}
 	status := aliyunClient.LENIIPStatusAvailable
 	if f != nil && f.Mode == FPartial && c.EFLO {
 		status = StatusExecuting
